@@ -112,7 +112,9 @@ def read_bytes(
 
     for bom, prefix, encoding in _xml_prefixes:
         if body.startswith(bom):
-            document = body.decode(encoding)
+            # The endian-specific codecs do not consume the byte-order
+            # mark; make sure it never becomes part of the document.
+            document = body[len(bom):].decode(encoding)
             return document, encoding, \
                 "text/xml" if document.startswith("<?xml") else None
 
